@@ -221,7 +221,7 @@ func (g *gBuilder) sprinkle() {
 	}
 	// zero-size components in the population (they are candidates of every Ifc0 / any point)
 	if g.r.P(1, 6) {
-		g.sc.zs = 2 + g.r.Intn(2)
+		g.sc.zs = []int{2, 3, 5, 5}[g.r.Intn(4)]
 	}
 	// faults: usually none, sometimes one, rarely two
 	switch g.r.Intn(8) {
@@ -389,7 +389,7 @@ func genMatch(r *hx.Rng) *gScen {
 		}
 	}
 	if r.P(1, 3) {
-		g.sc.zs = 2 + r.Intn(2)
+		g.sc.zs = []int{2, 3, 5, 5}[r.Intn(4)]
 	}
 	if r.P(1, 8) {
 		g.fault()
